@@ -6,8 +6,8 @@ from harness.core import pool, tb
 from harness.gen import systems
 from harness.props import _shared
 
-PROOF_MODULE = ["OdeVerif.Proofs.C03", "OdeVerif.Proofs.ReachSpec", "OdeVerif.Proofs.RefineGraph", "OdeVerif.Proofs.PipelineGraph", "OdeVerif.Proofs.RefineDemote", "OdeVerif.Proofs.RefinePartition", "OdeVerif.Proofs.RefineGlue"]
-GENERATED = ["PyGraph", "PyDemote", "PyPartition", "PyGlue", "PyInitialValues"]
+PROOF_MODULE = ["OdeVerif.Proofs.C03", "OdeVerif.Proofs.ReachSpec", "OdeVerif.Proofs.RefineGraph", "OdeVerif.Proofs.PipelineGraph", "OdeVerif.Proofs.RefineDemote", "OdeVerif.Proofs.RefinePartition", "OdeVerif.Proofs.RefineGlue", "OdeVerif.Proofs.RefineContracts"]
+GENERATED = ["PyGraph", "PyDemote", "PyPartition", "PyGlue", "PyInitialValues", "PyContracts"]
 THEOREMS = ["OdeVerif.C03.propagate_terminates", "OdeVerif.C03.verdict_total", "OdeVerif.C03.propagate_below", "OdeVerif.C03.propagate_closed",
             "OdeVerif.C03.propagate_greatest", "OdeVerif.C03.analytic_sound", "OdeVerif.C03.analytic_closed",
             "OdeVerif.C03.tractable_recognised", "OdeVerif.ReachSpec.graph_reach_iff", "OdeVerif.ReachSpec.sccSize_spec", "OdeVerif.C03.partition_exact_cover", "OdeVerif.C03.verdict_perm_invariant",
@@ -17,7 +17,8 @@ THEOREMS = ["OdeVerif.C03.propagate_terminates", "OdeVerif.C03.verdict_total", "
             "OdeVerif.Refine.solverPartition_requests", "OdeVerif.Refine.solverPartition_disabled",
             "OdeVerif.Refine.getLinCcSymbols_lookup", "OdeVerif.Refine.getLinCcSymbols_of_distinct", "OdeVerif.Refine.findInMatrix_refines", "OdeVerif.Refine.findPos_some",
             "OdeVerif.Refine.findPos_none_iff", "OdeVerif.Refine.findPos_column_distinct", "OdeVerif.Refine.shapeOrderFromSystemMatrix_refines",
-            "OdeVerif.Refine.getConnectedSymbols_refines", "OdeVerif.Refine.self_mem_getConnectedSymbols", "OdeVerif.Refine.shapeOrder_eq_length_connected"]
+            "OdeVerif.Refine.getConnectedSymbols_refines", "OdeVerif.Refine.self_mem_getConnectedSymbols", "OdeVerif.Refine.shapeOrder_eq_length_connected",
+            "OdeVerif.Refine.isZero_refines"]
 LEVEL = "proof"
 
 
